@@ -122,6 +122,35 @@ func c13Loads(sum *runSummary, r *rng, id int, tier string) int {
 			id++
 		}
 	}
+	// a term_expansion/2 that never returns: loading any text, and expand_term/2, must still be cancellable
+	for _, n := range []int{5, 50, 500} {
+		for mode, run := range map[string]string{"load": "", "expand_term": "expand_term(foo, X)."} {
+			p := prolog.New(nil, nil)
+			_ = p.Exec("term_expansion(_, _) :- repeat, fail.")
+			desc := map[string]interface{}{"text": fmt.Sprintf("term_expansion(_, _) :- repeat, fail.  then %s with the context cancelled from poll %d on", mode, n), "cancel_at_poll": n}
+			sum.Cases[fmt.Sprint(id)] = desc
+			ctx := newStepCtx(context.Background(), n)
+			done := make(chan error, 1)
+			go func() {
+				if run == "" {
+					done <- p.ExecContext(ctx, "foo.")
+				} else {
+					done <- p.QuerySolutionContext(ctx, run).Err()
+				}
+			}()
+			sum.Evaluations++
+			sum.count("cancel:term_expansion:" + mode)
+			select {
+			case err := <-done:
+				if err == nil || !strings.Contains(err.Error(), "context canceled") {
+					sum.Failures = append(sum.Failures, failure{ID: id, Class: "cancel:term-expansion-not-the-context-error", Input: desc, Observed: fmt.Sprint(err), Expected: "context canceled"})
+				}
+			case <-time.After(3 * time.Second):
+				sum.Failures = append(sum.Failures, failure{ID: id, Class: "cancel:term-expansion-does-not-return", Input: desc, Observed: "no return within 3 s", Expected: "the context's error"})
+			}
+			id++
+		}
+	}
 	return id
 }
 
